@@ -8,6 +8,7 @@ AVOID_V8 = {
     "fn_to_string",             # boa has no source text for Function.prototype.toString (implementation limitation, outside C01's fragment)
     "v8_accessor_spread_order", # V8 defines accessors of an object literal with a spread after its data properties (deviates from 13.2.5.5)
     "stmt_completion_value",    # open finding K8 (`10; L: { break L; }`): programs end in an expression statement
+    "v8_double_key_coercion",   # V8 runs ToPropertyKey twice for `o[k]++` and `o[k] op= v` (load and store); ECMA-262 GetValue coerces once and keeps the key
     "error_to_string",          # String(error) exposes message text, which is implementation-defined
     "logical_assign_nonlexical",  # open finding C03-K1: short-circuit logical assignment to a var/parameter/global leaves a reference behind
 }
